@@ -23,8 +23,8 @@ func init() {
 		ID:    "C11",
 		Title: "Encoding is deterministic and read-only",
 		Level: "model_checking",
-		Rule: "(A) determinism on the map-order seam: the instrumenter rewrites every range over a map in the library into an iteration whose order is a choice of the explorer; for CONNECT with every subset of the six will properties (top level empty and full) and for SUBSCRIBE/SUBACK/UNSUBACK, EVERY combination of iteration orders of every map range executed by WriteTo (and, separately, by String and Dump) is explored and must give identical bytes/text — Go leaves the order unspecified, so each is a legal execution. " +
-			"(B) read-only: explicit-state search with operations {WriteTo, String, Dump, WellFormed, all accessors} on packets of the bases and of every <=2 (quick) / <=3 (thorough) field deviation in presence from either base: for every operation sequence of length <=3, after every operation the deep digest of the packet's concrete object graph and of all package-level variables is compared with the initial one: an identical digest proves the transition is a self-loop; if it differs, WriteTo bytes, every accessor, String and Dump are compared with their initial values and any difference is a violation (a state change without observable effect, e.g. an internal cache, is counted but is no violation). " +
+		Rule: "(A) determinism on the map-order seam: the instrumenter rewrites every range over a map in the library into an iteration whose order is a choice of the explorer; for CONNECT with every subset of the six will properties (top level empty and full) and for the full packet of every type with every one or two optional fields removed, EVERY combination of iteration orders of every map range executed by WriteTo (and, separately, by String and Dump) is explored and must give identical bytes/text — Go leaves the order unspecified, so each is a legal execution. " +
+			"(B) read-only: explicit-state search with operations {WriteTo, String, Dump, WellFormed, all accessors} on packets of the bases, of every <=2 (quick) / <=3 (thorough) field deviation in presence from either base and of every single-field deviation to every boundary value below 16 KiB (127/128-byte strings, integer extremes, every list shape): for every operation sequence of length <=3, after every operation the deep digest of the packet's concrete object graph and of all package-level variables is compared with the initial one: an identical digest proves the transition is a self-loop; if it differs, WriteTo bytes, every accessor, String and Dump are compared with their initial values and any difference is a violation (a state change without observable effect, e.g. an internal cache, is counted but is no violation). " +
 			"(C) cross-check on the free-running (un-instrumented) runtime: the corpus is encoded 50x in each of three separate processes and fingerprints compared. (D) static scan of the library for other nondeterminism sources. " +
 			"states = distinct (packet, digest) states; transitions = operations + explored orderings; distinct_nontrivial = distinct (packet, ordering vector) and (packet, operation sequence) executions.",
 		Assumptions: []string{
@@ -79,9 +79,24 @@ func c11Targets() []c11Target {
 			return true
 		})
 	}
-	for _, t := range []byte{8, 9, 11} {
+	// every type: the full packet and the full packet with every one or two
+	// optional fields absent (orders only matter when several are present);
+	// map ranges appearing anywhere in an encoder are thereby exercised
+	for _, t := range allTypes {
 		s := gen.Schemas[t]
 		out = append(out, c11Target{t, s.Full()}, c11Target{t, s.Empty()})
+		if len(s.Slots) == 0 {
+			continue
+		}
+		all := make([]int, len(s.Slots))
+		for i := range all {
+			all[i] = i
+		}
+		full := s.Full()
+		s.Deviations(full, all, 2, func(slot, val int) bool { return val != 0 }, func(v gen.Vec, nd int) bool {
+			out = append(out, c11Target{t, append(gen.Vec{}, v...)})
+			return true
+		})
 	}
 	return out
 }
@@ -333,6 +348,12 @@ func runC11(x *core.Ctx) {
 					return val != s.Slots[slot].Primary
 				}
 				return val != 0
+			}, func(v gen.Vec, nd int) bool { targets = append(targets, append(gen.Vec{}, v...)); return true })
+			// every single field at every boundary value below 16 KiB (long
+			// strings, integer extremes, every list shape)
+			s.Deviations(base, all, 1, func(slot, val int) bool {
+				sl := s.Slots[slot]
+				return (sl.Big != nil && sl.Big(val)) || (sl.N > 64 && val > 8 && val != sl.Primary)
 			}, func(v gen.Vec, nd int) bool { targets = append(targets, append(gen.Vec{}, v...)); return true })
 		}
 		for _, v := range targets {
